@@ -147,3 +147,53 @@ def r_wrapper_dispatch(cx):
 def _literal_arms(cx, f):
     """(literal, successor taken when the action equals the literal, None)"""
     return [(lit, succ, None) for (succ, lhs, lit) in str_eq_guards(f)]
+
+
+@rule("R-SIBLING-ELEMENTS", ["C14"])
+def r_sibling_elements(cx):
+    """The five formula helpers of the gravity operator (welmec, grs80, grs67, jeffreys, cassinis) share one input
+    convention: latitude in element 0, height in element 1 of the tuple, result written to element 0. Cross-checking
+    the siblings: each reads exactly the same elements of the tuple it gets, and none reads any other."""
+    sp = spec("wrappers.json")["gravity"]["actions"]
+    sets = {}
+    for lit in sorted(sp):
+        name = "inner_op::gravity::" + lit
+        if not cx.f.has_fn(name):
+            continue
+        f = cx.f.fn(name)
+        used = set()
+        for bb, i, s in f.all_stmts():
+            if s["k"] != "assign":
+                continue
+            v = f.rvalue(s["rv"], (bb, i))
+
+            def vis(x):
+                if x[0] == "proj" and isinstance(x[2], tuple) and x[2][0] == "elem" and len(x[2]) == 2 and \
+                        isinstance(x[2][1], int) and x[1][0] == "call" and isinstance(x[1][1], str) and \
+                        x[1][1].endswith("get_coord"):
+                    used.add(x[2][1])
+                return True
+            mir.walk(v, vis)
+        for bb, t in f.calls():
+            for a in f.arg_terms(bb):
+                def vis2(x):
+                    if x[0] == "proj" and isinstance(x[2], tuple) and x[2][0] == "elem" and len(x[2]) == 2 and \
+                            isinstance(x[2][1], int) and x[1][0] == "call" and isinstance(x[1][1], str) and \
+                            x[1][1].endswith("get_coord"):
+                        used.add(x[2][1])
+                    return True
+                mir.walk(a, vis2)
+        sets[lit] = used
+    n = 0
+    if sets:
+        from collections import Counter
+        common = Counter(frozenset(v) for v in sets.values()).most_common(1)[0][0]
+        for lit, used in sorted(sets.items()):
+            n += 1
+            ok = frozenset(used) == common and used <= {0, 1}
+            cx.ob("R-SIBLING-ELEMENTS", "gravity/%s" % lit, ok,
+                  "gravity::%s reads the elements %s of the tuple, like its siblings" % (lit, sorted(used)) if ok else
+                  "gravity::%s reads the elements %s of the tuple while its sibling formulas read %s (latitude, height): "
+                  "one of the five takes an input from the wrong element" % (lit, sorted(used), sorted(common)),
+                  cx.where(cx.f.fn("inner_op::gravity::" + lit).d["span"]))
+    cx.count("R-SIBLING-ELEMENTS", "siblings", n)
